@@ -362,6 +362,11 @@ def exclusions(spec):
         if fl.get('reg_inquiry_only') and defect_present('outline:variable-only-enquired-about-not-passed'):
             fl['reg_inquiry_only'] = False
             why.append('outline: variable that the region only enquires about (SIZE/LBOUND/UBOUND) -> not passed')
+    if spec['ep'] in ('trafo_module', 'trafo_file') and not app['extract'] and not app['outline']:
+        # ExtractTransformation with both options off (drawn, or left over by the exclusion above) does nothing:
+        # let it outline instead of spending the evaluation on an unchanged program
+        opts['outline_regions'] = True
+        return exclusions(dict(spec, flags=fl, opts=opts))[0], why + ['(not a defect) ExtractTransformation with nothing enabled: outline_regions switched on']
     if not why:
         return spec, []
     return dict(spec, flags=fl, opts=opts), why
